@@ -1,6 +1,6 @@
 (* C16 — all lemmas, and the concrete states used as non-vacuity examples. *)
 From Yv Require Export Common.Base C16.Model C16.Spec C16.ProofsBase C16.ProofsAbs C16.ProofsProps
-  C16.ProofsFrame C16.ProofsScript C16.Run C16.ProofsOracle C16.ProofsPanic.
+  C16.ProofsFrame C16.ProofsScript C16.Run C16.ProofsOracle C16.ProofsPanic C16.ProofsEnv.
 
 Definition A : name := [97%N].
 
@@ -152,4 +152,38 @@ Proof.
   - apply (inv_run [OGetOrNew A SGlobal [MReadOnly 9%N]] init); [exact ProofsBase.inv_init|].
     vm_compute. reflexivity.
   - vm_compute. eexists; repeat split.
+Qed.
+
+(* an exported array *)
+Definition ex_array : vset :=
+  match run init [OGetOrNew A SGlobal [MAssign (Array [[49%N]; []; [50%N]]) None; MExport true]] with
+  | Some s => s | None => init end.
+
+Lemma ex_array_facts :
+  Inv ex_array /\ env_c_strings ex_array = [[97; 61; 49; 58; 58; 50]%N].
+Proof.
+  split; [|vm_compute; reflexivity].
+  apply (inv_run [OGetOrNew A SGlobal [MAssign (Array [[49%N]; []; [50%N]]) None; MExport true]] init);
+    [exact ProofsBase.inv_init|vm_compute; reflexivity].
+Qed.
+
+Lemma ex_exec_runs :
+  exists t s', irun vset step (m_obs_vars [A; B]) (m_obs_env [A; B])
+                 (compile (CExec [(A, FIVE); (A, Scalar [54%N])]) ++ []) ex_pre_state = (t, Finished, s').
+Proof. vm_compute. eauto. Qed.
+
+(* what `VariableSet::init` does for LINENO: a variable with the quirk and no value *)
+Definition LINENO : name := [76; 73; 78; 69; 78; 79]%N.
+Definition ex_lineno : vset :=
+  match run init [OGetOrNew LINENO SGlobal [MSetQuirk true]; OGetOrNew LINENO SGlobal [MExport true]] with
+  | Some s => s | None => init end.
+
+Lemma ex_lineno_facts :
+  Inv ex_lineno /\
+  (exists w, get ex_lineno LINENO = Some w /\ vval w = None /\ vquirk w = true /\ vexp w = true) /\
+  env_c_strings ex_lineno = [].
+Proof.
+  split; [|split; [vm_compute; eexists; repeat split|vm_compute; reflexivity]].
+  apply (inv_run [OGetOrNew LINENO SGlobal [MSetQuirk true]; OGetOrNew LINENO SGlobal [MExport true]] init);
+    [exact ProofsBase.inv_init|vm_compute; reflexivity].
 Qed.
